@@ -73,19 +73,28 @@ func (a nscope) String() string {
 	return "{" + strings.Join(ks, " ") + "}"
 }
 
-type issuedToken struct {
-	token     string
-	host      string // registry the realm belongs to
+type acquisition struct {
 	requested nscope
-	reqText   string
-	granted   nscope
-	issuedAt  time.Time
-	revoked   bool // the registry has answered 401 to this token and will go on doing so
-	revokedIn int  // ... since this caller request
-	revokedSeq int64 // ... at this point of the simulation
-	refused   bool // the registry has answered 401 to a request carrying this token (for whatever reason)
-	lifetime  time.Duration // as the client must assume it (60 s when absent)
 	callID    int
+	expires   time.Time // as the token response said
+}
+
+type issuedToken struct {
+	token      string
+	host       string // registry the realm belongs to
+	requested  nscope
+	reqText    string
+	granted    nscope
+	issuedAt   time.Time
+	revoked    bool  // the registry has answered 401 to this token and will go on doing so
+	revokedIn  int   // ... since this caller request
+	revokedSeq int64 // ... at this point of the simulation
+	// acquisitions: one entry per token response that carried this text (more than one
+	// only when the token server hands the same text out again)
+	acquisitions []acquisition
+	refused      bool          // the registry has answered 401 to a request carrying this token (for whatever reason)
+	lifetime     time.Duration // as the client must assume it (60 s when absent)
+	callID       int
 }
 
 type outReq struct {
@@ -128,7 +137,9 @@ type regHost struct {
 	redirectTo   string // where a redirecting token server points
 	challengeMut string // "" | superset | reordered | duplicate
 	spurious401  int    // answer 401 to this many otherwise valid bearer requests
-	revokeRate   int    // > 0: each valid bearer request revokes its token for good with probability 1/revokeRate
+	sameToken    bool   // the token server hands out one token text for as long as that token is good (a token per client, not per request)
+	curTok       string
+	revokeRate   int // > 0: each valid bearer request revokes its token for good with probability 1/revokeRate
 	// bearerDeny: what the 401 to a request that carried a bearer token looks like
 	// ("" = the usual challenge, "none" = no Www-Authenticate at all, "unknown" =
 	// only schemes the client does not speak, "malformed")
@@ -472,6 +483,30 @@ func (w *authWorld) serveToken(h *regHost, rw http.ResponseWriter, req *http.Req
 			return
 		}
 	}
+	if h.sameToken {
+		if cur := w.issued[h.curTok]; cur != nil && !cur.revoked && w.now().Before(cur.issuedAt.Add(cur.lifetime)) {
+			// the same text again, good for what was asked now as well and for another while
+			acq := acquisition{requested: requested, expires: w.now().Add(300 * time.Second)}
+			if o != nil {
+				acq.callID = o.callID
+			}
+			cur.acquisitions = append(cur.acquisitions, acq)
+			cur.requested = cur.requested.union(requested)
+			cur.granted = cur.granted.union(granted)
+			cur.reqText = scopeText
+			cur.lifetime = w.now().Sub(cur.issuedAt) + 300*time.Second
+			resp := map[string]any{"token": cur.token, "expires_in": 300}
+			if o != nil {
+				o.status = 200
+			}
+			data, _ := json.Marshal(resp)
+			rw.Header().Set("Content-Type", "application/json")
+			rw.WriteHeader(200)
+			rw.Write(data)
+			w.env.Probe("auth:same-token-text-issued-again")
+			return
+		}
+	}
 	w.ntok++
 	// A token belongs to the registry whose call asked for it. (That is the token
 	// server's own registry unless another realm redirected the client here.)
@@ -509,7 +544,11 @@ func (w *authWorld) serveToken(h *regHost, rw http.ResponseWriter, req *http.Req
 		it.callID = o.callID
 		o.status = 200
 	}
+	it.acquisitions = []acquisition{{requested: requested, callID: it.callID, expires: it.issuedAt.Add(it.lifetime)}}
 	w.issued[tok] = it
+	if h.sameToken {
+		h.curTok = tok
+	}
 	data, _ := json.Marshal(resp)
 	rw.Header().Set("Content-Type", "application/json")
 	rw.WriteHeader(200)
